@@ -24,6 +24,30 @@ import (
 
 func init() {
 	wExtra = append(wExtra, &hysim.Harness{Name: "c06", Gen: genC06, Exec: execC06, LeakOK: true, Isolate: true})
+	// C12 on real quic-go: the relay workload with BBR on both sides over a path whose MTU the
+	// connection has to discover (probes that raise the datagram size) - see genC12W
+	wExtra = append(wExtra, &hysim.Harness{Name: "c12w", Gen: genC12W, Exec: execC06, LeakOK: true, Isolate: true})
+}
+
+// genC12W: one or two long-lived transfers, BBR chosen on both sides (no bandwidth declared, every
+// profile via the default), a loss-free path with an MTU between the smallest and the largest size
+// path MTU discovery tries. A panic in the controller ends the worker (class crash); the relay's
+// own oracles keep running.
+func genC12W(r *hysim.Rand, tier string) *hysim.Script {
+	sc := &hysim.Script{Cfg: map[string]int64{}}
+	sc.Cfg["logger"] = int64(r.Pick(0, 1))
+	sc.Cfg["fastopen"] = int64(r.Pick(0, 1))
+	sc.Cfg["brutal"] = 0
+	sc.Cfg["net_delay_us"] = int64(r.Pick(500, 2000, 10000))
+	sc.Cfg["net_mtu"] = r.Pick64(1252, 1262, 1270, 1275, 1279, 1280, 1300, 1351, 1400, 1452, int64(r.Range(1252, 1460)))
+	sc.Cfg["stratum"] = 0
+	n := r.Range(1, 2)
+	for k := 0; k < n; k++ {
+		sc.Ops = append(sc.Ops, hysim.Op{K: "conn", A: []int64{
+			r.Pick64(0, 0, 300), r.Pick64(20000, 150000), r.Pick64(50000, 300000),
+			1500, int64(r.Pick(1500, 16384)), planComplete, 0, r.Pick64(2000, 5000, 10000), 0, 0}})
+	}
+	return sc
 }
 
 // stream content: byte i of direction dir (0 = client->target, 1 = target->client) of connection k
